@@ -205,7 +205,7 @@ func runC04(p *core.Program, r *core.Report) {
 		fname := p.FuncName(fn)
 		keyP := paramByName(fn, "key")
 		self := ssa.Value(fn.Params[0])
-		if fn == nget {
+		if fn == nget || fn == nupsert {
 			self = descentNode(fn)
 		}
 		nacc := 0
@@ -813,6 +813,9 @@ func runC04(p *core.Program, r *core.Report) {
 			if prm, isP := base.(*ssa.Parameter); isP && len(f.Params) > 0 && prm == f.Params[0] && (f == nupsert || f == ndelete) && f != nil {
 				okW = true
 			}
+			if f == nupsert && f != nil && base == descentNode(f) {
+				okW = true // the descent written as a loop: the cursor is the node reached
+			}
 			c.ob("AG1", p.FuncName(f), "write to Node."+nm, p.InstrPos(st), okW, "a node's "+nm+" is written through a pointer that is not the node reached by the descent (or a fresh node): cached or detached nodes can be updated instead of the tree")
 		}
 	}
@@ -828,8 +831,8 @@ func runC04(p *core.Program, r *core.Report) {
 			if !ok || fieldName(fa.X.Type(), fa.Field) != "Val" {
 				continue
 			}
-			if f2, ok := fa.X.(*ssa.FieldAddr); ok && f2.X == ssa.Value(fn.Params[0]) {
-				c.ob("PV2", p.FuncName(fn), "value overwritten at the hit only", p.InstrPos(st), cmpOutcome(fn, st.Block(), paramByName(fn, "key"), fn.Params[0]) == ordEQ && st.Val == ssa.Value(paramByName(fn, "val")),
+			if f2, ok := fa.X.(*ssa.FieldAddr); ok && f2.X == descentNode(fn) {
+				c.ob("PV2", p.FuncName(fn), "value overwritten at the hit only", p.InstrPos(st), cmpOutcome(fn, st.Block(), paramByName(fn, "key"), descentNode(fn)) == ordEQ && st.Val == ssa.Value(paramByName(fn, "val")),
 					"upsert must overwrite n.Val with val exactly where neither Compare outcome 1 nor -1 holds")
 			}
 		}
@@ -869,6 +872,22 @@ func runC04(p *core.Program, r *core.Report) {
 					slot := stripAmp(x.path(s2.Addr))
 					if hasFact(edgeFacts(x, fn, st.Block()), slot, "==", "zero") {
 						linked = slot
+					}
+					// the same by value identity (a slot of the loop cursor has no access path)
+					if fa, ok := s2.Addr.(*ssa.FieldAddr); ok && linked == "" {
+						if guardedBy(fn, st.Block(), func(cd path.Cond, truth bool) bool {
+							if normCmp(cd.Op, truth) != "==" || !path.IsNil(cd.Y) {
+								return false
+							}
+							u, ok := cd.X.(*ssa.UnOp)
+							if !ok || u.Op != token.MUL {
+								return false
+							}
+							f2, ok := u.X.(*ssa.FieldAddr)
+							return ok && f2.X == fa.X && f2.Field == fa.Field
+						}) {
+							linked = "slot of the node reached"
+						}
 					}
 				}
 				c.ob("AG4", fname, "size++ with the linking of a new node", p.InstrPos(st), linked != "", "a size increment is not accompanied, in the same branch, by storing NewNode(key, val) into a slot known to be nil: the count and the number of nodes diverge")
